@@ -346,9 +346,22 @@ func main() {
 			{"bufio4096", 0, func(r io.Reader) io.Reader { return bufio.NewReaderSize(r, 4096) }},
 			{"bufio-big", 0, func(r io.Reader) io.Reader { return bufio.NewReaderSize(r, 2*C+70000) }},
 			{"onebyte", 7, iotest.OneByteReader}, {"dataerr", 0, iotest.DataErrReader}, {"half", C, iotest.HalfReader},
+			// io.Copy prefers the reader's WriteTo if there is one (this is how cmd/age consumes the plaintext)
+			{"iocopy", -1, ident},
+			// another, unrelated file is opened and read between Decrypt and the first Read, and again after it
+			{"interleaved", 7, ident},
+		}
+		decoy, err := lab.Encrypt([]age.Recipient{x0.Rcpt}, lab.Plain(C+9, c.Seed+5), false, nil)
+		if err != nil {
+			panic(err)
+		}
+		otherFile := func() {
+			if rd, err := age.Decrypt(bytes.NewReader(decoy), x0.Id); err == nil {
+				io.Copy(io.Discard, rd)
+			}
 		}
 		c.Part("read-schedules")
-		c.Bound("ChunkSize=%d: %d files (valid files of lengths %s binary and armored, and truncated / bit-flipped / extended / reordered / armor-damaged variants) x %d consumers (read sizes 1,7,C-1,C,C+1,2C, ReadAll; bufio 16/4096/large, one-byte, data+EOF, half readers); at every source Read the delivery is chosen from {fill, 1 byte, to the next seam, seam+1, rest together with EOF}; every schedule with <= %d deviations", C, len(files), lens(rsizes), len(consumers), bound)
+		c.Bound("ChunkSize=%d: %d files (valid files of lengths %s binary and armored, and truncated / bit-flipped / extended / reordered / armor-damaged variants) x %d consumers (read sizes 1,7,C-1,C,C+1,2C, ReadAll; bufio 16/4096/large, one-byte, data+EOF, half readers; io.Copy; reads interleaved with the decryption of another file); at every source Read the delivery is chosen from {fill, 1 byte, to the next seam, seam+1, rest together with EOF}; every schedule with <= %d deviations", C, len(files), lens(rsizes), len(consumers), bound)
 		run := func(f tf, cons consumer, x *explore.X, noSched bool) (o obs) {
 			defer func() {
 				if r := recover(); r != nil {
@@ -368,6 +381,18 @@ func main() {
 			rd, err := age.Decrypt(in, x0.Id)
 			if err != nil {
 				o.decErr = err.Error()
+				return
+			}
+			if cons.name == "interleaved" {
+				otherFile()
+			}
+			if cons.buf == -1 {
+				var b bytes.Buffer
+				_, err := io.Copy(&b, rd)
+				o.plain = b.Bytes()
+				if err != nil {
+					o.readErr = err.Error()
+				}
 				return
 			}
 			bs := cons.buf
@@ -398,6 +423,9 @@ func main() {
 					}
 				}
 				o.plain = append(o.plain, buf[:n]...)
+				if i == 0 && cons.name == "interleaved" {
+					otherFile()
+				}
 				if err == io.EOF {
 					return
 				}
